@@ -90,6 +90,7 @@ type Monitor interface {
 // ---------------------------------------------------------------------------
 
 type Sim struct {
+	cooling bool
 	gasSeen map[string]int64 // gas used by the last successful transaction of each message type
 	Seed   uint64
 	Cfg    SwarmConfig
@@ -376,8 +377,26 @@ func (s *Sim) generateBlock() *BlockSpec {
 			spec.Faults = []Fault{{Kind: "restart_after_commit"}}
 		}
 	}
+	// cool-down (bounded liveness once faults stop): for the last CoolDown blocks of a run no
+	// fault is injected, only the feeders, governance and the canary act; the canary's plain
+	// requests must be served (evidence counters canary_served/..., canary_refused/...)
+	cooling := s.Cfg.CoolDown > 0 && s.blockIdx >= s.Cfg.Horizon-s.Cfg.CoolDown
+	if cooling && !s.cooling {
+		s.cooling = true
+		s.Cfg.Faults = FaultCfg{}
+		s.mempool = nil
+		spec.Faults = nil
+		s.Stats.Probe("cool_down_started")
+	}
+	if cooling {
+		spec.DtMs = 4000
+		spec.Faults = nil
+	}
 	// agents act on the committed state
 	for _, a := range s.agents {
+		if cooling && a.Name() != "feeder" && a.Name() != "gov" && a.Name() != "canary" {
+			continue
+		}
 		func() {
 			// agents call the chain's own query/price functions, which can panic on degenerate
 			// states (a real client would just see a failed query)
